@@ -216,3 +216,7 @@ func init() {
 func init() {
 	claim("C18", "J2", "J3", "J4", "N7", "P1")
 }
+
+func init() {
+	claim("C10", "I1", "I7", "I4", "I5", "I8", "I3", "B3", "B4")
+}
